@@ -175,7 +175,7 @@ check("C15",
       design_ref="DESIGN.md 5/C15",
       level_text="exhaustive over the stated fault product",
       level_note="back-off jitter uses math/rand: durations are not pinned, the oracles do not depend on them (only on attempt counts and on the clock not advancing after a cancel)")
-CHECKS["C18"]["packages"] = ["l1chan", "schedh"]
+CHECKS["C18"]["packages"] = ["l1chan", "schedh", "l2node"]
 CHECKS["C07"]["packages"] = ["l1chan", "l2transport", "schedh"]
 
 check("C14",
